@@ -19,7 +19,11 @@ CHECKS = {
    ref="6 (C09)"),
 }
 
-CLIENT_TEXT = ("Executions of the real client under the gate scheduler (every hook site of the verif build tag and every I/O call on the "
+CLIENT_TEXT = ("spec/MqttClient.tla models the client at the grain of its blocking points (one move per segment between two gates; semaphores as "
+  "variables; reader, persisted publishers, Close, the abort and termCallbacks goroutines, a conforming broker, fault budgets). TLC checks the design "
+  "invariants on bounded instances and exports the stimulus of its transitions; the Go harness replays each behaviour against the real code parked at the "
+  "same gates (a step that finds the process at another gate is a divergence; none occur on this tree apart from Go's random choice between two ready "
+  "select cases). In addition: executions of the real client under the gate scheduler (every hook site of the verif build tag and every I/O call on the "
   "harness's connections, dialer and store is a scheduling point): seeded schedules with injected faults (failed, partial and timed-out "
   "writes, failed dials, store errors, connection breaks, process stops followed by AdoptSession, store damage), a conforming scripted broker, "
   "and a healing epilogue (drain, Close, leak check). Every recorded trace is judged by TLC with spec/Monitor.tla: the property's clauses are "
@@ -28,9 +32,11 @@ CLIENT_NOTE = ("Trusted: harness (sim net/broker/store, codec, gate scheduler), 
   "<= 4 faults, <= 2 stop/adopt generations per behaviour; 480 (quick) / 2400 (thorough) behaviours per run, seeded by VERIF_SEED. 'Never returns' "
   "is observed as no event for 250 ms in the healed world with the blocked frame inside the package.")
 for pid, fam in [("C01","out,restart"),("C02","restart"),("C03","out,restart"),("C04","in,inrestart"),("C05","out,restart"),("C07","in"),
-                 ("C10","connect,req,out"),("C11","req,close"),("C12","close"),("C16","damage"),("C17","out,restart,req"),("C18","connect,out")]:
-    CHECKS[pid] = dict(engine="client", level="exploration",
-        technique="gate-scheduled executions of the real client (seeded schedules + faults) judged by TLC with the TLA+ observation monitor spec/Monitor.tla",
+                 ("C08","req,out"),("C14","req,close,out,connect"),("C10","connect,req,out"),("C11","req,close"),("C12","close"),("C16","damage"),("C17","out,restart,req"),("C18","connect,out")]:
+    mc = pid in ("C01","C03","C05","C10","C12","C17","C18","C14","C08","C11")
+    CHECKS[pid] = dict(engine="client", level="model_checking" if mc else "exploration",
+        technique=("TLC model checking of spec/MqttClient.tla (gate-level model) + TLC-exported behaviours replayed step by step on the real client + " if mc else "") +
+                  "gate-scheduled executions of the real client (seeded schedules + faults) judged by TLC with the TLA+ observation monitor spec/Monitor.tla",
         text=CLIENT_TEXT + "Scenario families for this property: " + fam + ".", note=CLIENT_NOTE, ref="5, 6 (%s)" % pid)
 
 def main():
